@@ -219,6 +219,9 @@ def _patch_env():
             text = text.concrete()
         elif hasattr(type(text), "concrete"):
             text = text.concrete()
+        elif hasattr(type(text), "ev") and not isinstance(text, str):
+            from .levelb import Opaque
+            return Opaque(lambda m, t=text: _REAL_DEDENT(t.ev(m)))     # level B: source lines exist only once a model is chosen
         return _REAL_DEDENT(text)
 
     textwrap.dedent = dedent
